@@ -30,6 +30,7 @@ const (
 	big70  = "1180591620717411303424" // 2^70, a bignum
 	big40  = "1099511627776"          // 2^40
 	minFix = "-9223372036854775808"   // most negative fixnum
+	maxFix = "9223372036854775807"    // most positive fixnum
 )
 
 var pool = []poolObj{
@@ -42,6 +43,10 @@ var pool = []poolObj{
 	{"big62", "hugefix", big62, false, nil},
 	{"minfix", "minfix", minFix, false, nil},
 	{"big70", "bignum", big70, false, nil},
+	{"maxfix", "maxfix", maxFix, false, nil},
+	{"negbig70", "bignum", "-" + big70, false, nil},
+	{"negratio", "ratio", "-7/3", false, nil},
+	{"negzero", "float", "-0.0", false, nil},
 	{"ratio", "ratio", "1/2", false, nil},
 	{"double", "float", "1.5", false, nil},
 	{"single", "float", "2.5f0", false, nil},
@@ -104,6 +109,10 @@ var pool = []poolObj{
 
 // smallPool: the reduced pool for the exhaustive 3-tuple block.
 var smallPool = []string{"nil", "zero", "neg1", "big62", "str", "sym", "keyword", "list3", "dotted", "vector", "hash", "lambda", "in-stream", "values0"}
+
+// numPool: every ordered pair of these for every function that documents a numeric
+// parameter, in both tiers: the places where machine arithmetic has an edge.
+var numPool = []string{"zero", "one", "neg1", "three", "big62", "minfix", "maxfix", "big70", "negbig70", "ratio", "negratio", "double", "negzero", "single", "long", "complex"}
 
 // quickPool: the quick tier walks every pair of these for every function.
 var quickPool = []string{"nil", "zero", "three", "neg1", "big62", "big40", "bad-utf8", "deep-list", "double", "str", "sym", "keyword", "char", "list3", "list1", "dotted", "vector", "hash", "lambda", "in-stream"}
